@@ -17,7 +17,9 @@ def configs(ctx):
     q = [L(K=2, SP=1, SQ=1, Bonus=1), L(K=2, SP=0, SQ=1, Bonus=2, Eos=True), L(K=3, SP=1, SQ=2, Bonus=1, Eos=True, H0=2),
          L(K=2, SP=2, SQ=1, Bonus=2), L(K=3, SP=3, SQ=1, Bonus=1, H0=1), L(K=100, SP=1, SQ=1, Bonus=2, Eos=True),
          # the same toy LM behind the real LMWrapper / HiddenState (torch tensors, in-place state updates)
-         L(K=1, SP=1, SQ=1, Bonus=1, Eos=True, lm_impl="wrapped"), L(K=2, SP=1, SQ=2, Bonus=2, H0=2, lm_impl="wrapped")]
+         L(K=1, SP=1, SQ=1, Bonus=1, Eos=True, lm_impl="wrapped"), L(K=2, SP=1, SQ=2, Bonus=2, H0=2, lm_impl="wrapped"),
+         # the toy LM raised to the power 100 (single continuations score down to -138) with the LM scale divided by 100
+         L(K=3, SP=1, SQ=2, Bonus=1, Eos=True, lm_impl="deep"), L(K=100, SP=1, SQ=1, Bonus=2, lm_impl="deep")]
     if ctx.tier == "quick":
         return q
     more = []
@@ -27,6 +29,8 @@ def configs(ctx):
                 for eos in (False, True):
                     more.append(L(K=k, SP=sp, SQ=sq, Bonus=bonus, Eos=eos, H0=(k + sp + bonus) % 3))
     more += [L(K=k, SP=sp, SQ=sq, Bonus=2, Eos=bool(k % 2), H0=k % 3, lm_impl="wrapped")
+             for k in (1, 2, 3) for sp, sq in ((0, 1), (1, 1), (3, 2))]
+    more += [L(K=k, SP=sp, SQ=sq, Bonus=1 + k % 2, Eos=bool(k % 2), H0=k % 3, lm_impl="deep")
              for k in (1, 2, 3) for sp, sq in ((0, 1), (1, 1), (3, 2))]
     more += [L(T=4, K=2, SP=1, SQ=1, Bonus=1, Eos=True), L(T=4, K=3, SP=2, SQ=1, Bonus=1, H0=1),
              L(T=4, K=2, SP=1, SQ=2, Bonus=2, Eos=True, H0=2), L(T=3, NC=3, D=3, K=3, SP=1, SQ=1, Bonus=2, Eos=True)]
